@@ -14,6 +14,8 @@ fn probe(src: &str, workers: usize, strat: Strategy, seed: u64) {
     for (n, f) in fates(&sim, st.pid) { println!("  {} => {}", n, match f { Fate::Done(v) => v.show(), o => format!("{:?}", o) }); }
 }
 
+fn quiver_compiler_parse(s: &str) -> bool { vh::qv::parses(s) }
+
 fn main() {
     let args: Vec<String> = std::env::args().collect();
     if args.len() >= 3 && args[1] == "probe" {
@@ -56,9 +58,23 @@ fn main() {
         for (n, f) in fates(&sim, st.pid) { println!("  {} => {}", n, match f { Fate::Done(v) => v.show(), o => format!("{:?}", o) }); }
         return;
     }
+    if args.len() >= 7 && args[1] == "c18-child" {
+        let p = |i: usize| args[i].parse::<u64>().unwrap();
+        vh::c18::child_main(p(2), p(3), p(4), p(5), p(6));
+        return;
+    }
+    if args.len() >= 2 && args[1] == "c18-ladders" { vh::c18::ladders_child(); return; }
     if args.len() >= 7 && args[1] == "c12-child" {
         let p = |i: usize| args[i].parse::<u64>().unwrap();
         vh::c12::child_main(p(2), p(3), p(4), p(5), p(6));
+        return;
+    }
+    if args.len() >= 2 && args[1] == "corpus" {
+        let items = vh::corpus::load("/repo");
+        let parse_ok = items.iter().filter(|i| quiver_compiler_parse(&i.src)).count();
+        let mut by: std::collections::BTreeMap<String, usize> = Default::default();
+        for i in &items { *by.entry(i.origin.split('/').next().unwrap_or("").to_string()).or_insert(0) += 1; }
+        println!("{} items, {} parse; by origin {:?}", items.len(), parse_ok, by);
         return;
     }
     if args.len() >= 3 && args[1] == "ioprobe" {
@@ -129,6 +145,7 @@ fn main() {
         "C12" => { vh::c12::check(&rep); rep.finish(vh::c12::RULE, vh::c12::ASSUME, vh::c12::SITUATIONS) }
         "C20" => { vh::c20::check(&rep); rep.finish(vh::c20::RULE, vh::c20::ASSUME, vh::c20::SITUATIONS) }
         "C19" => { vh::c19::check(&rep); rep.finish(vh::c19::RULE, vh::c19::ASSUME, vh::c19::SITUATIONS) }
+        "C18" => { vh::c18::check(&rep); rep.finish(vh::c18::RULE, vh::c18::ASSUME, vh::c18::SITUATIONS) }
         _ => { eprintln!("unknown property {}", id); 2 }
     };
     std::process::exit(code);
